@@ -69,7 +69,10 @@ TOLERANCES = {
                       '|got-ref| <= 4*eps*prod_axes(1+2*pad)*max|x|',
     'block': 'overlapping block bit-identical to the input block',
     'matrices': 'forward and adjoint matrices (entries are small integers) '
-                'equal the reference / its transpose exactly',
+                'equal the reference / its transpose exactly; operator with '
+                'an explicit range=: alternatively the transpose times '
+                '(range weighting constant / domain weighting constant) '
+                'within (4*eps + g) relative, g as in gram',
     'adjoint data': '|got - M^T y| <= 4*eps*(|M^T||y|), exact for integers',
     'gram': 'max|N^T G_X - G_Y M| <= (64*eps + g)*max(|lhs|,|rhs|); g = 0 '
             'for ran_shp-built ranges (weighting inherited), g = 8*eps64*'
@@ -977,7 +980,27 @@ def _run_op(desc):
         raise Violation('C16|adjoint-spaces|' + sigt,
                         'adjoint.adjoint is not the operator')
     N, noff = _matrix_of(adj, 'C16|adjoint-matrix|' + sigt)
-    if np.any(noff) or not np.array_equal(N, ref_M.T):
+    feps = np.finfo(float).eps
+    # an explicitly given range has its own weighting constant (its own cell
+    # volume, or a constant passed by the user): the adjoint is then the
+    # transpose times (range constant / domain constant); the Gram identity
+    # below decides whether the multiple is right.  Everywhere else (and on
+    # a library that ignores the weightings) it is the exact transpose.
+    exact = not np.any(noff) and np.array_equal(N, ref_M.T)
+    if not exact and desc['how'] == 'range' and not isint:
+        dom_w = desc['weighting'] if desc['weighting'] is not None \
+            else float(np.prod(dxs))
+        ran_w = desc.get('ran_weighting')
+        s_exp = 1.0 if ran_w is None else ran_w / dom_w
+        geom_t = 8 * feps * sum(
+            (abs(float(op.range.min_pt[i])) + abs(float(op.range.max_pt[i])))
+            / dxs[i] for i in np.arange(nd))
+        exact = not np.any(noff) and bool(np.all(
+            np.abs(N - s_exp * ref_M.T) <=
+            (4 * np.finfo(dt).eps + geom_t) * s_exp * np.abs(ref_M.T)))
+        if exact:
+            strata.append('op|adjoint-scaled-transpose')
+    if not exact:
         raise Violation('C16|adjoint-matrix|' + sigt,
                         '{} -> {} offset {}: adjoint matrix is not the '
                         'transpose (max dev {:.3g})'.format(
